@@ -1,2 +1,285 @@
-use crate::harness::Gen;
-pub fn gens() -> Vec<Gen> { vec![] }
+//! C03: presented disclosures cannot add, alter or relocate claims.
+
+use crate::harness::{fail, Gen, Verdict};
+use crate::keys;
+use crate::oracle::{disclosure_paths, process, view_of_set, Path, Strategy};
+use crate::pipeline::Cfg;
+use crate::rng::Rng;
+use crate::sut::{self, Out};
+use crate::util::{decode_disclosure, jstr, make_disclosure, short, Parts, FAR_EXP, J};
+use serde_json::json;
+use std::collections::HashSet;
+
+pub fn gens() -> Vec<Gen> {
+    vec![
+        Gen { name: "c03.single_deviation", prop: "C03", tags: &["pad", "garbage", "forge", "dup", "parse", "src/lib.rs"], cases: cases_single, check },
+        Gen { name: "c03.triples", prop: "C03", tags: &["hash_map", "create_hash_mappings", "digest"], cases: cases_triples, check },
+        Gen { name: "c03.subsets", prop: "C03", tags: &["subset", "perm", "order"], cases: cases_subsets, check },
+        Gen { name: "c03.mixed_random", prop: "C03", tags: &["random"], cases: cases_random, check },
+    ]
+}
+
+pub fn credential(k: usize) -> Cfg {
+    let claims = json!({
+        "iss": "https://issuer.example/i", "exp": FAR_EXP, "vis": "v", "role": "guest",
+        "addr": {"city": "X", "zip": "1"}, "tags": ["t0", "t1"]
+    });
+    let strategy = match k % 3 {
+        0 => Strategy::AllLevels,
+        1 => Strategy::Custom(vec!["$.role".into(), "$.addr".into(), "$.addr.city".into(), "$.tags[1]".into()]),
+        _ => Strategy::TopLevel,
+    };
+    Cfg::simple(claims, strategy).variant(k)
+}
+
+fn n_genuine(k: usize) -> usize {
+    let cfg = credential(k);
+    crate::oracle::hidden_paths(&cfg.claims, &cfg.strategy).len()
+}
+
+fn case_of(k: usize, list: Vec<J>) -> J {
+    let mut cfg = credential(k);
+    // key binding is not the topic here
+    cfg.holder = if k % 4 == 3 { Some("es256".into()) } else { None };
+    let mut c = cfg.to_json();
+    c["list"] = J::Array(list);
+    c
+}
+
+fn forged_pool() -> Vec<J> {
+    vec![
+        json!({"forge3": ["role", "admin"]}),
+        json!({"forge3": ["vis", "hacked"]}),
+        json!({"forge3": ["iss", "https://evil.example"]}),
+        json!({"forge3": ["exp", 1]}),
+        json!({"forge3": ["cnf", {"jwk": {"kty": "oct", "k": "AAAA"}}]}),
+        json!({"forge3": ["admin", true]}),
+        json!({"forge3": ["addr", {"city": "Y"}]}),
+        json!({"forge3": ["city", "Y"]}),
+        json!({"forge3": ["_sd", ["x"]]}),
+        json!({"forge2": "t9"}),
+        json!({"forge2": {"role": "admin"}}),
+    ]
+}
+
+fn garbage_pool() -> Vec<J> {
+    ["!!", "", "e30", "W10", "bm90anNvbg", "####", "WyJhIiwgImIi", "a", "=", "W10=", "bnVsbA", "IiI", "MQ", " ", "Wy\u{e9}"]
+        .iter()
+        .map(|s| json!({ "raw": s }))
+        .collect()
+}
+
+fn cases_single(_rng: &mut Rng, sink: &mut dyn FnMut(J) -> bool) {
+    for k in 0..6 {
+        let n = n_genuine(k);
+        let genuine: Vec<J> = (0..n).map(|i| json!({ "g": i })).collect();
+        let mut devs: Vec<J> = Vec::new();
+        for i in 0..n {
+            devs.push(json!({"pad": i, "n": 1}));
+            devs.push(json!({"pad": i, "n": 2}));
+            devs.push(json!({"reenc": i, "how": "compact"}));
+            devs.push(json!({"reenc": i, "how": "pretty"}));
+            devs.push(json!({"alter": i, "what": "salt"}));
+            devs.push(json!({"alter": i, "what": "name"}));
+            devs.push(json!({"alter": i, "what": "value"}));
+            devs.push(json!({"trunc": i, "n": 1}));
+            devs.push(json!({"trunc": i, "n": 4}));
+            devs.push(json!({ "other": i }));
+            devs.push(json!({ "g": i })); // duplicate
+        }
+        devs.extend(forged_pool());
+        devs.extend(garbage_pool());
+        for dev in &devs {
+            // (a) inserted at every position of the full genuine list
+            for pos in 0..=n {
+                let mut l = genuine.clone();
+                l.insert(pos, dev.clone());
+                if !sink(case_of(k, l)) {
+                    return;
+                }
+            }
+            // (b) replacing the genuine disclosure it was derived from
+            if let Some(i) = ["pad", "reenc", "alter", "trunc", "other"].iter().find_map(|f| dev.get(*f).and_then(|v| v.as_u64())) {
+                let mut l = genuine.clone();
+                l[i as usize] = dev.clone();
+                if !sink(case_of(k, l)) {
+                    return;
+                }
+                if !sink(case_of(k, vec![dev.clone()])) {
+                    return;
+                }
+            }
+        }
+    }
+}
+
+fn cases_triples(_rng: &mut Rng, sink: &mut dyn FnMut(J) -> bool) {
+    for k in [0usize, 1, 4] {
+        let mut pool: Vec<J> = vec![json!({"g": 0}), json!({"g": 1}), json!({"g": 2}), json!({"g": 3})];
+        pool.extend(forged_pool().into_iter().take(7));
+        pool.extend(garbage_pool().into_iter().take(4));
+        pool.push(json!({"pad": 0, "n": 2}));
+        pool.push(json!({"other": 0}));
+        for a in &pool {
+            for b in &pool {
+                for c in &pool {
+                    if !sink(case_of(k, vec![a.clone(), b.clone(), c.clone()])) {
+                        return;
+                    }
+                }
+            }
+        }
+    }
+}
+
+fn cases_subsets(rng: &mut Rng, sink: &mut dyn FnMut(J) -> bool) {
+    for k in 0..6 {
+        let n = n_genuine(k);
+        for mask in 0u32..(1 << n) {
+            let subset: Vec<J> = (0..n).filter(|i| mask >> i & 1 == 1).map(|i| json!({ "g": i })).collect();
+            let mut orders = vec![subset.clone()];
+            if subset.len() > 1 {
+                let mut r = subset.clone();
+                r.reverse();
+                orders.push(r);
+                let mut s = subset.clone();
+                rng.shuffle(&mut s);
+                orders.push(s);
+                let mut t = subset.clone();
+                t.rotate_left(1);
+                orders.push(t);
+            }
+            for o in orders {
+                if !sink(case_of(k, o)) {
+                    return;
+                }
+            }
+        }
+    }
+}
+
+fn cases_random(rng: &mut Rng, sink: &mut dyn FnMut(J) -> bool) {
+    let forged = forged_pool();
+    let garbage = garbage_pool();
+    loop {
+        let k = rng.below(12);
+        let n = n_genuine(k);
+        let len = rng.below(8);
+        let mut l = Vec::new();
+        for _ in 0..len {
+            let i = rng.below(n);
+            l.push(match rng.below(10) {
+                0..=4 => json!({ "g": i }),
+                5 => rng.pick(&forged).clone(),
+                6 => rng.pick(&garbage).clone(),
+                7 => json!({"pad": i, "n": 1 + rng.below(2)}),
+                8 => json!({ "other": i }),
+                _ => json!({"alter": i, "what": *rng.pick(&["salt", "name", "value"])}),
+            });
+        }
+        if !sink(case_of(k, l)) {
+            return;
+        }
+    }
+}
+
+pub fn resolve_item(item: &J, genuine: &[String], other: &[String]) -> Option<String> {
+    let o = item.as_object()?;
+    let (kind, v) = o.iter().next()?;
+    let gi = |v: &J| -> Option<&String> { genuine.get(v.as_u64()? as usize) };
+    match kind.as_str() {
+        "g" => gi(v).cloned(),
+        "pad" => Some(format!("{}{}", gi(v)?, "=".repeat(o.get("n")?.as_u64()? as usize))),
+        "trunc" => {
+            let g = gi(v)?;
+            let n = o.get("n")?.as_u64()? as usize;
+            Some(g[..g.len().saturating_sub(n)].to_string())
+        }
+        "reenc" => {
+            let dec = decode_disclosure(gi(v)?)?;
+            let text = if o.get("how")?.as_str()? == "pretty" { serde_json::to_string_pretty(&dec).ok()? } else { serde_json::to_string(&dec).ok()? };
+            Some(crate::util::b64e(text.as_bytes()))
+        }
+        "alter" => {
+            let mut dec = decode_disclosure(gi(v)?)?;
+            let arr = dec.as_array_mut()?;
+            let last = arr.len() - 1;
+            match o.get("what")?.as_str()? {
+                "salt" => arr[0] = json!("AAAAAAAAAAAAAAAAAAAAAA"),
+                "name" => {
+                    if arr.len() == 3 {
+                        arr[1] = json!(format!("{}x", arr[1].as_str()?));
+                    } else {
+                        arr.insert(1, json!("name"));
+                    }
+                }
+                _ => arr[last] = json!("altered-value"),
+            }
+            Some(make_disclosure(&dec))
+        }
+        "other" => other.get(v.as_u64()? as usize).cloned(),
+        "forge3" => {
+            let a = v.as_array()?;
+            Some(make_disclosure(&json!(["Zm9yZ2VkLXNhbHQtMDEyMzQ1", a[0], a[1]])))
+        }
+        "forge2" => Some(make_disclosure(&json!(["Zm9yZ2VkLXNhbHQtMDEyMzQ1", v]))),
+        "raw" => v.as_str().map(String::from),
+        _ => None,
+    }
+}
+
+pub fn check(case: &J) -> Verdict {
+    let Some(cfg) = Cfg::from_json(case) else { return Verdict::Trivial };
+    let Some(list) = case["list"].as_array() else { return Verdict::Trivial };
+    let (_, issued) = match cfg.issue_parts() {
+        Ok(x) => x,
+        Err(v) => return v,
+    };
+    let needs_other = list.iter().any(|i| i.get("other").is_some());
+    let other = if needs_other {
+        match cfg.issue_parts() {
+            Ok((_, p)) => p.disclosures,
+            Err(v) => return v,
+        }
+    } else {
+        vec![]
+    };
+    let Some(l) = list.iter().map(|i| resolve_item(i, &issued.disclosures, &other)).collect::<Option<Vec<String>>>() else {
+        return Verdict::Trivial;
+    };
+    if cfg.format == "compact" && l.iter().any(|s| s.contains('~')) {
+        return Verdict::Trivial;
+    }
+    let Some(payload) = issued.payload() else { return fail("issued payload does not decode", "JSON object") };
+    let pres = Parts { jwt: issued.jwt.clone(), disclosures: l.clone(), kb: None }.serialize(&cfg.format);
+    let oracle = process(&payload, &l);
+    // the closed-subset view of the original claims
+    let dpaths = disclosure_paths(&cfg.claims, &payload, &issued.disclosures);
+    let have: HashSet<Path> = l.iter().filter_map(|d| dpaths.get(d).cloned()).collect();
+    let mut expected_view = view_of_set(&cfg.claims, &cfg.strategy, &have);
+    if let Some(h) = &cfg.holder {
+        expected_view["cnf"] = json!({"jwk": keys::holder_jwk_json(h)});
+    }
+    match sut::verify(&pres, &cfg.alg, None, &cfg.format) {
+        Out::Panic(m) => fail(format!("PANIC: {m}"), "Err or the oracle's claims"),
+        Out::Err(_) => Verdict::Pass,
+        Out::Ok(v) => match oracle {
+            Err(e) => fail(format!("ACCEPTED with claims {}", short(&jstr(&v), 500)), format!("rejected: {e}")),
+            Ok(w) => {
+                if v != w {
+                    fail(
+                        format!("verified_claims = {}", short(&jstr(&v), 600)),
+                        format!("Err, or the processing result {}", short(&jstr(&w), 600)),
+                    )
+                } else if v != expected_view {
+                    fail(
+                        format!("verified_claims = {}", short(&jstr(&v), 600)),
+                        format!("Err, or the view of the original claims for the genuine disclosures presented: {}", short(&jstr(&expected_view), 600)),
+                    )
+                } else {
+                    Verdict::Pass
+                }
+            }
+        },
+    }
+}
